@@ -119,6 +119,14 @@ CHECKS = {
         design_ref='DESIGN.md §5 C19',
         note='Trusted base: vf/reflex.py.',
         technique='runtime monitoring: reference-lexer oracle on input/output pairs'),
+    'C10': dict(
+        category='exploration',
+        text='The real formatter runs on generated programs laid out one statement per line (and other layouts) at widths 0-8: metamorphic pairs (same line '
+             'breaks, different indentation/trailing blanks) must give identical bytes, a second pass must change nothing, an independent depth tracker over the '
+             'reference token stream of the output predicts the indentation of every code-leading line, and line-shape rules are checked.',
+        design_ref='DESIGN.md §5 C10, Appendix C',
+        note='Trusted base: vf/reflex.py; the depth tracker in vf/checks/c10.py; one-line constructs are identified from the generator\'s line scopes.',
+        technique='runtime monitoring: metamorphic oracle + idempotence + independent indentation model'),
 }
 
 NOT_BUILT = 'check not built yet in this session (design in DESIGN.md §5); not claimed until its monitor runs silent on the unchanged tree'
